@@ -293,10 +293,12 @@ def custom(P, tier, seed, replay=None):
 P = {
     "id": PID,
     "claimed": True,
-    "coq_targets": ["Base/Locks.vo", "C07/Model.vo", "C07/Proofs.vo", "Gen/RepoSkel.vo", "C07/Repo.vo", "Properties/C07.vo",
+    "coq_targets": ["Base/Locks.vo", "C07/Model.vo", "C07/Lin.vo", "C07/Proofs.vo", "Gen/RepoSkel.vo", "C07/Repo.vo", "Properties/C07.vo",
                     "Run/Eval_C07.vo"],
     "theorems_module": "Properties.C07",
-    "theorems": ["C07_no_crash", "C07_drf", "C07_mutual_exclusion", "C07_deadlock_free", "C07_repo_safe"],
+    "theorems": ["C07_no_crash", "C07_drf", "C07_mutual_exclusion", "C07_deadlock_free", "C07_linearizable",
+                 "C07_readers_see_committed_state", "C07_no_lost_update", "C07_seq_spec_total", "C07_repo_safe",
+                 "C07_repo_linearizable"],
     "streams": [STREAM],
     "generators": [gen_skel],
     "custom": custom,
@@ -328,19 +330,24 @@ P = {
     ],
     "level_text": "Proof (kernel-checked, no axioms), for EVERY lock skeleton passing the boolean check wf_skel and for unboundedly many "
                   "goroutines and operations (induction over the interleaving semantics of sync.Mutex/RWMutex, with and without writer "
-                  "preference): no unlock-of-unlocked-mutex / nil-tree crash, no data race on r.index / r.knownRules / r.dr nor on any "
-                  "tree object (lockset + ownership of private clones; published trees are never written), mutual exclusion, and "
-                  "deadlock freedom (rank certificate knownRulesMutex < rulesTreeMutex). The skeleton of the repository is REGENERATED "
-                  "from internal/rules/repository_impl.go (and the mutating-method table from internal/x/radixtree) on every run and "
-                  "must pass `Example repo_skel_wf : wf_skel repo_wlock repo_skel = true`. Supporting stream: ~1200 (quick) / 30000 "
-                  "(thorough) concurrent histories of the real repository under `go test -race`, each checked in Coq to be "
-                  "linearizable w.r.t. the sequential repository machine (atomic lookups, no lost update, final state).",
+                  "preference): (1) no unlock-of-unlocked-mutex / nil-tree crash, no data race on r.index / r.knownRules / r.dr nor on "
+                  "any tree object (lockset + ownership of private clones; published trees are never written), mutual exclusion, "
+                  "deadlock freedom (rank certificate knownRulesMutex < rulesTreeMutex); (2) LINEARIZABILITY by forward simulation with "
+                  "linearization points: every execution is equivalent to the sequential execution (seq_run: the same method body run "
+                  "alone, atomically) of its operations in linearization-point order, every completed operation returns exactly the log "
+                  "the sequential history gives it (a lookup is matched against one committed state), each operation takes effect once "
+                  "between invocation and response, and at quiescence the guarded state IS the final state of the sequential history "
+                  "(no lost update). The skeleton of the repository is REGENERATED from internal/rules/repository_impl.go (and the "
+                  "mutating-method table from internal/x/radixtree) on every run and must pass `Example repo_skel_wf : wf_skel "
+                  "repo_wlock repo_skel = true`. Supporting stream: ~1200 (quick) / 30000 (thorough) concurrent histories of the real "
+                  "repository under `go test -race`, each checked in Coq to be linearizable w.r.t. the sequential repository machine "
+                  "repo_apply (atomic lookups, no lost update, final state).",
     "level_note": "PARTIAL. Proved about the skeleton semantics, not about Go: the Go memory model and scheduler are not modelled "
                   "(sequentially consistent interleavings; lockset discipline => DRF is taken to be what Go guarantees), the "
                   "go/ast extractor and the path enumeration are trusted, Tree.Clone's deepness and panics inside tree code are "
-                  "outside the model. Atomicity / linearizability / no-lost-update are, in this version, enforced by the boolean "
-                  "discipline wf_cow (all writes and every multi-access read of guarded state inside one writer-lock section, "
-                  "publishing store last) and observed by the stress stream.",
+                  "outside the model. The sequential specification of the theorems is the skeleton itself run atomically with "
+                  "uninterpreted write functions (value semantics for trees); that this coincides with the repository's functional "
+                  "behaviour (repo_apply, literal paths) is observed by the stress stream, not proved.",
     "assumptions": [
         "guarded fields of `repository` are accessed only from repository_impl.go (the extractor scans the other files of the "
         "package for the field and unexported method names and rejects the skeleton otherwise)",
